@@ -1178,8 +1178,8 @@ impl hb_buffer_t {
             // But that would leave empty slots in the buffer in case of allocation
             // failures.  See comments in shift_forward().  This can cause O(N^2)
             // behavior more severely than adding 32 empty slots can...
-            if self.idx < count {
-                self.shift_forward(count - self.idx);
+            if self.idx < count && !self.shift_forward(count - self.idx) {
+                return false;
             }
 
             assert!(self.idx >= count);
@@ -1233,10 +1233,11 @@ impl hb_buffer_t {
         true
     }
 
-    fn shift_forward(&mut self, count: usize) {
+    #[must_use]
+    fn shift_forward(&mut self, count: usize) -> bool {
         assert!(self.have_output);
         if !self.ensure(self.len + count) {
-            return;
+            return false;
         }
 
         for i in (0..(self.len - self.idx)).rev() {
@@ -1251,6 +1252,7 @@ impl hb_buffer_t {
 
         self.len += count;
         self.idx += count;
+        true
     }
 
     fn clear_context(&mut self, side: usize) {
